@@ -189,6 +189,27 @@ def tip_cases(tier="quick"):
             for k, d in enumerate(e2e.tip_table(tier))]
 
 
+def _na_cases():
+    from . import c02
+
+    return c02.na_case().map(lambda c: dict(c, part="na"))
+
+
+def check_na(case):
+    """Nucleotides are never debumped or flipped: every input heavy atom (the 5'-terminal phosphate
+    aside) must be in the model at its input coordinates (relation shared with C03's strand part)."""
+    from . import c03
+
+    inner = c03.check_na(case)
+    res = Result()
+    for sig, msg in inner.violations:
+        if sig in ("C03:na:replaced-heavy", "C03:na:lost-heavy"):
+            res.bad("C04:na:" + sig.rsplit(":", 1)[1].replace("replaced-heavy", "moved").replace("lost-heavy", "lost"), msg)
+    res.nontrivial = inner.nontrivial
+    res.labels = list(inner.labels)
+    return res
+
+
 def _altname_cases():
     from . import c03
 
@@ -199,6 +220,7 @@ def parts(tier):
     return [
         Part("tiptable", check, cases=lambda: tip_cases(tier), exhaustive=True),
         Part("altnames", check, cases=_altname_cases, exhaustive=True),
+        Part("na", check_na, strategy=_na_cases(), budget=dict(quick=160, thorough=3000)),
         Part("e2e", check, strategy=case(), budget=dict(quick=640, thorough=12000)),
         Part("windows", check, strategy=window_case(), budget=dict(quick=240, thorough=5000)),
     ]
